@@ -1,13 +1,13 @@
 ---- MODULE Oracle_ServerInvoke ----
 (* Batch oracle for C10: records of harness/cmd/srvdrive, one per (round, connection):                 *)
-(*   cfg {proto, pool, ht}, sends [{k, ver, pt, id, fn, tmo, cls, code, msg, impl}], recvs [frame bytes] *)
+(*   cfg {proto, pool, ht, filt, wctx}, sends [{k, ver, pt, id, fn, tmo, cls, code, msg, impl, filt}], recvs [frame bytes] *)
 (* Every frame that came back is decoded HERE, by the strict schema-directed reference decoder         *)
 (* (TarsSchema!DecTop with the schemas of requestf.ResponsePacket / RequestPacket extracted from the   *)
 (* IDL), attributed to the request whose id it carries, and judged by ServerInvoke!Faults.             *)
 EXTENDS TarsSchema, Json
 VARIABLE x
 SI == INSTANCE ServerInvoke WITH NReq <- 0, NConn <- 0, Shapes <- {}, Pools <- {}, HTs <- {}, TimerAfterDecode <- TRUE,
-        KF_BlankTimeoutReply <- FALSE, KF_PacketTypeSetLate <- FALSE, KF_TupDropsResult <- FALSE,
+        KF_BlankTimeoutReply <- FALSE, KF_PacketTypeSetLate <- FALSE, KF_TupDropsResult <- FALSE, Filts <- {}, VG_PingThroughFilter <- FALSE,
         cfg <- x, reqs <- x, unread <- x, queue <- x, worker <- x, hpc <- x, ipc <- x, fired <- x, cancelled <- x,
         rspLocal <- x, rspVar <- x, out <- x, ctxPt <- x, impl <- x, wire <- x, answered <- x
 SS == JsonDeserialize("schemas.json").structs
@@ -51,7 +51,7 @@ VerName(v) == CASE v = 1 -> "tars" [] v = 3 -> "tup" [] v = 5 -> "json" [] OTHER
 \* faults of one record: <<record, k, clause, situation, version>>; k = 0 for faults that belong to no request
 RecFaults(i) ==
   LET rec == Recs[i]
-      c == [pool |-> rec.cfg.pool, ht |-> rec.cfg.ht > 0, proto |-> rec.cfg.proto]
+      c == [pool |-> rec.cfg.pool, ht |-> rec.cfg.ht > 0, proto |-> rec.cfg.proto, filt |-> rec.cfg.filt, wctx |-> rec.cfg.wctx]
       ys == Replies(rec.recvs, <<>>)
       good == SelectSeq(ys, LAMBDA y : y.kind # "bad")
       ids == {rec.sends[j].id : j \in 1..Len(rec.sends)} IN
